@@ -160,7 +160,8 @@ func (p *Point) Mul(s *big.Int, q *Point) *Point {
 		}
 		exp = exp.Add(exp, exp)
 	}
-	p = resProj.Affine()
+	res := resProj.Affine()
+	p.X, p.Y = res.X, res.Y
 	return p
 }
 
